@@ -115,6 +115,45 @@ def Dose.fromDict (d : Json) : Option (Dose E) :=
   | some (.str "Bolus") => (Bolus.fromDict c d).map .bolus
   | some _ => (Infusion.fromDict c d).map .infusion
 
+/-! ### Doses reached by construction and by transformations (`create`, `subs`)
+
+  `Infusion.create` insists on exactly one of rate / duration (`none` = ValueError); `Infusion.subs`
+  branches on the *presence* of the rate (`is not None`), never on its value, and maps the
+  substitution over the fields that are present (`none` = the AssertionError when neither is).
+  `f : E → E` is `Expr.subs(substitutions)`; it may send a symbol to the integer 0. -/
+
+def Infusion.create (amount : E) (admid : Int) (rate duration : Option E) : Option (Infusion E) :=
+  match rate, duration with
+  | none, none => none
+  | some _, some _ => none
+  | r, d => some { amount, admid, rate := r, duration := d }
+
+/-- exactly one of rate / duration is given -/
+def Infusion.WF (i : Infusion E) : Bool := i.rate.isSome != i.duration.isSome
+
+def Bolus.subs (f : E → E) (b : Bolus E) : Bolus E := { amount := f b.amount, admid := b.admid }
+
+def Infusion.subs (f : E → E) (i : Infusion E) : Option (Infusion E) :=
+  match i.rate, i.duration with
+  | some r, _ => some { amount := f i.amount, admid := i.admid, rate := some (f r), duration := none }
+  | none, some d => some { amount := f i.amount, admid := i.admid, rate := none, duration := some (f d) }
+  | none, none => none
+
+def Dose.subs (f : E → E) : Dose E → Option (Dose E)
+  | .bolus b => some (.bolus (b.subs f))
+  | .infusion i => (i.subs f).map .infusion
+
+/-- A serialiser of an optional field that decides on the *value* of the field
+    (`x.serialize() if x else None`; `Expr.__bool__` is `expr != 0`) instead of on its presence.
+    `truthy := fun _ => true` is `serOpt`, the code as it is. -/
+def serOptBy (truthy : E → Bool) : Option E → Json
+  | none => .null
+  | some e => if truthy e then .str (c.ser e) else .null
+
+def Infusion.toDictBy (truthy : E → Bool) (i : Infusion E) : Json :=
+  .obj [("class", .str "Infusion"), ("amount", .str (c.ser i.amount)),
+        ("rate", serOptBy c truthy i.rate), ("duration", serOptBy c truthy i.duration), ("admid", .int i.admid)]
+
 /-! ### Compartment -/
 
 structure Compartment (E : Type) where
